@@ -229,6 +229,10 @@ func c10Workloads() []c10Workload {
 		{name: "slo-post", pre: pre(BindPost, true), main: func(w *WorldCfg) *MsgSpec {
 			return &MsgSpec{Kind: "slo", SP: 0, Binding: "post", ID: "_c10d", HasRelay: true, RelayState: "lrs", NameID: "x@example.org"}
 		}},
+		{name: "slo-redirect-no-nameid", pre: pre(BindPost, true), main: func(w *WorldCfg) *MsgSpec {
+			// the principal is named by something else than a NameID (BaseID / EncryptedID in a real deployment)
+			return &MsgSpec{Kind: "slo", SP: 1, Binding: "redirect", ID: "_c10g", NoNameID: true, SessionIndex: []string{"_s1"}}
+		}},
 		{name: "attrq-all", pre: pre(BindPost, true), main: func(w *WorldCfg) *MsgSpec {
 			return &MsgSpec{Kind: "attrq", SP: 0, Binding: "soap", ID: "_c10e", User: 0, DestMode: "absent"}
 		}},
